@@ -582,7 +582,7 @@ pub fn main(args: &Args) -> i32 {
         let (hm, info) = minimise(&h, sig);
         let ex = execute(&hm);
         let detail = ex.verdict.as_ref().map(|v| v.1.clone()).unwrap_or_default();
-        let path = format!("{}/replays/{PROP}-{}-{}.json", simcore::VERIF_DIR, base_seed, idx);
+        let path = format!("{}/replays/{PROP}-{}-{}.json", simcore::verif_dir(), base_seed, idx);
         simcore::write_json_atomic(
             &path,
             &json!({"property": PROP, "engine": "sim_io/c15 (single-client SourceView histories)", "base_seed": base_seed,
@@ -654,7 +654,7 @@ pub fn main(args: &Args) -> i32 {
             "sampled, not exhaustive"
         ],
     });
-    simcore::write_json_atomic(&format!("{}/evidence/{PROP}.json", simcore::VERIF_DIR), &ev);
+    simcore::write_json_atomic(&format!("{}/evidence/{PROP}.json", simcore::verif_dir()), &ev);
     println!(
         "runs={} calls={} distinct={} nontrivial={} cache_states={} violating_runs={} wall={:.1}s digest={:016x}",
         acc.runs, acc.calls, distinct, nontrivial, cache_states, acc.violations.total(), wall, acc.digest
